@@ -12,7 +12,7 @@ func init() {
 	registerProperty(&PropertyInfo{
 		ID:    "C06",
 		Title: "Background merges and persists never change logical content",
-		Rules: []string{"C06.R1", "C06.R2", "C06.R3", "C06.R4", "C01.R2", "C04.R2"},
+		Rules: []string{"C06.R1", "C06.R2", "C06.R3", "C06.R4", "C06.R5", "C01.R2", "C04.R2"},
 		Decides: "the data-flow obligations of the three introductions: every introduction carries the deleted sets of the root it obtains itself (the CURRENT root), including the persist swap (C01.R2 + C06.R1); in the merge introduction every current root element is run through the per-segment processing together with one fresh accumulator bitmap, that processing adds to the accumulator exactly the new doc numbers oldNewDocNums[segment][d] for d ranging over the deletions of the CURRENT element minus (when present) the deletions known at merge time, segments that vanished from the root meanwhile have all their live docs mapped and added, the accumulator becomes the merged segment's deleted set, and the merged segment is listed only when it has more docs than deletions (otherwise 'skipped' is reported); at every merge call site the list of segments and the list of drops are appended to in the same block from the same element; every path of the merge introduction answers the requester exactly once and the requesters' receives are guarded by a successful hand-over.",
 		NotCovered: "that the doc-number maps produced by the segment library are right; which segments the planner picks (C19).",
 	})
@@ -20,6 +20,8 @@ func init() {
 		Covers: "origin of the snapshot whose elements are carried, in every function that swaps the root with a fresh snapshot"})
 	registerRule(&RuleInfo{ID: "C06.R2", Title: "deletes that raced with a merge are translated onto the merged segment", Floor: 4, Run: ruleC06R2,
 		Covers: "data flow into the merge accumulator bitmap in the merge introduction and its per-segment helper"})
+	registerRule(&RuleInfo{ID: "C06.R5", Title: "snapshot offsets are cumulative FULL segment sizes", Floor: 3, Run: ruleC06R5,
+		Covers: "every value stored/appended into Snapshot.offsets that is a loop-carried running sum"})
 	registerRule(&RuleInfo{ID: "C06.R3", Title: "what is merged is what was live: segments and drops are built in lockstep", Floor: 2, Run: ruleC06R3,
 		Covers: "every append to a []*roaring.Bitmap drops list in package index"})
 	registerRule(&RuleInfo{ID: "C06.R4", Title: "every merge request is answered; requesters wait only after a successful hand-over", Floor: 3, Run: ruleC06R4,
@@ -303,6 +305,42 @@ func (c *Ctx) checkMergeHelper(helper *ssa.Function, a *IdxAnchors, fOld, fMap *
 	if !andNotOK {
 		problems = append(problems, "the deletions already known at merge time are not subtracted with roaring.AndNot(now.deleted, atMerge.deleted)")
 	}
+	// the translation must also run when the segment had NO deletions at merge time
+	eachInstr(helper, func(in ssa.Instruction) {
+		iff, ok := in.(*ssa.If)
+		if !ok {
+			return
+		}
+		b, ok := iff.Cond.(*ssa.BinOp)
+		if !ok || b.Op != token.NEQ && b.Op != token.EQL {
+			return
+		}
+		var other ssa.Value
+		if isNilConst(b.Y) {
+			other = b.X
+		} else if isNilConst(b.X) {
+			other = b.Y
+		} else {
+			return
+		}
+		f, base := loadedField(other)
+		if f != a.SSDeleted || base == ssa.Value(nowParam) || !dependsOnField(base, fOld) {
+			return
+		}
+		nonNilEdge := 0
+		if b.Op == token.EQL {
+			nonNilEdge = 1
+		}
+		eachInstr(helper, func(x ssa.Instruction) {
+			ci, ok := x.(*ssa.Call)
+			if !ok || ci.Common().StaticCallee() == nil || !isBitmapPtr(ci.Common().Args[0].Type()) || ci.Common().Args[0] != ssa.Value(accParam) {
+				return
+			}
+			if edgeDominates(iff, nonNilEdge, ci.Block()) {
+				problems = append(problems, "deletions that raced with the merge are translated only when the segment already had deletions at merge time (the update sits behind atMerge.deleted != nil)")
+			}
+		})
+	})
 	if nAdd == 0 {
 		problems = append(problems, "nothing is added to the accumulator")
 	}
@@ -318,6 +356,84 @@ func (c *Ctx) checkMergeHelper(helper *ssa.Function, a *IdxAnchors, fOld, fMap *
 	}
 	c.Check(len(problems) == 0, "merge helper translates the raced deletions in "+name, c.Pos(helper.Pos()),
 		fmt.Sprintf("%d accumulator update(s), each oldNewDocNums[id][d] with d from now.deleted AndNot atMerge.deleted; processed entry removed from old", nAdd), uniqJoin(problems))
+}
+
+// ruleC06R5: the offsets of a snapshot are the running sum of the FULL document counts of
+// the segments listed before (doc numbers inside a segment include deleted documents).
+func ruleC06R5(c *Ctx) {
+	a := c.Idx()
+	n := 0
+	for _, fn := range c.FuncsIn(pkgIndex) {
+		// values appended / stored into Snapshot.offsets
+		var offVals []ssa.Value
+		eachInstr(fn, func(in ssa.Instruction) {
+			switch x := in.(type) {
+			case *ssa.Store:
+				if ia, ok := x.Addr.(*ssa.IndexAddr); ok {
+					if f, _ := loadedField(ia.X); f == a.SnapOffsets {
+						offVals = append(offVals, x.Val)
+					}
+					if al, ok := ia.X.(*ssa.Alloc); ok && al.Comment == "varargs" && types.Identical(x.Val.Type(), types.Typ[types.Uint64]) {
+						// element of an append(...offsets, v)
+						for _, r := range *al.Referrers() {
+							if sl, ok := r.(*ssa.Slice); ok && sl.Referrers() != nil {
+								for _, rr := range *sl.Referrers() {
+									if call, ok := rr.(*ssa.Call); ok && builtinName(call.Common()) == "append" {
+										if f, _ := loadedField(call.Common().Args[0]); f == a.SnapOffsets {
+											offVals = append(offVals, x.Val)
+										}
+									}
+								}
+							}
+						}
+					}
+				}
+			}
+		})
+		seenPhi := map[*ssa.Phi]bool{}
+		for _, v := range offVals {
+			ph, ok := v.(*ssa.Phi)
+			if !ok || seenPhi[ph] {
+				continue // copied offsets (persist swap) or constants
+			}
+			seenPhi[ph] = true
+			n++
+			key := fmt.Sprintf("offsets accumulate full segment sizes in %s (#%d)", FuncName(fn), n)
+			var problems []string
+			var visit func(p *ssa.Phi, seen map[*ssa.Phi]bool)
+			visit = func(p *ssa.Phi, seen map[*ssa.Phi]bool) {
+				if seen[p] {
+					return
+				}
+				seen[p] = true
+				for _, e := range p.Edges {
+					switch x := e.(type) {
+					case *ssa.Phi:
+						visit(x, seen)
+					case *ssa.Const:
+					case *ssa.BinOp:
+						if x.Op != token.ADD {
+							problems = append(problems, "the running offset is not advanced by addition")
+							continue
+						}
+						if xp, ok := x.X.(*ssa.Phi); ok {
+							visit(xp, seen)
+						}
+						call, isCall := x.Y.(*ssa.Call)
+						full := isCall && call.Common().IsInvoke() && call.Common().Method.Name() == "Count" && namedOf(call.Common().Value.Type()) != nil &&
+							namedOf(call.Common().Value.Type()).Obj().Name() == "Segment"
+						if !full {
+							problems = append(problems, "the running offset is advanced at "+c.Pos(x.Pos())+" by something other than the full document count of the listed segment (Segment.Count()): document numbers of the following segments overlap with this one as soon as it has deletions")
+						}
+					default:
+						problems = append(problems, "unexpected source of the running offset")
+					}
+				}
+			}
+			visit(ph, map[*ssa.Phi]bool{})
+			c.Check(len(problems) == 0, key, c.Pos(ph.Pos()), "offset(k+1) = offset(k) + segment(k).Count() including deleted documents", uniqJoin(problems))
+		}
+	}
 }
 
 func ruleC06R3(c *Ctx) {
